@@ -232,6 +232,22 @@ def run(ctx):
                         any(isinstance(x, ast.Continue) for x in h.body) and \
                         any("split" in norm_stmt(b) for b in tr.body):
                     tol = True
+    # ... and skipped means skipped: the scan goes on after a blank or malformed
+    # line (a `break`/`return` there would lose every counter below it)
+    stops = [n for n in icfg.nodes if n.kind == "stmt" and isinstance(n.stmt, (ast.Break,))
+             or n.kind == "return"]
+    lp_ = [x for x in ast.walk(io.node) if isinstance(x, ast.For)]
+    inloop = {id(y) for l_ in lp_ for b_ in l_.body for y in ast.walk(b_)}
+    for n in stops:
+        if id(n.stmt) in inloop and ("truthy", "line", False) in facts(icfg, n):
+            blank = False
+    for tr in ast.walk(io.node):
+        if isinstance(tr, ast.Try):
+            for h in tr.handlers:
+                if handler_catches(h, ["ValueError"]) and any(
+                        isinstance(x, (ast.Break, ast.Return)) for b in h.body for x in ast.walk(b)) \
+                        and any("split" in norm_stmt(b) for b in tr.body):
+                    tol = False
     if blank and tol:
         ctx.ok("C14.R5", "io:tolerance", sample="blank lines skipped; un-splittable lines ignored")
     else:
